@@ -120,12 +120,16 @@ func runJob(j c56.Job, mode string, g, r int) result {
 	cold := j.Origin == "canon" || j.Origin == "literal" || j.Origin == "regex"
 	var base []string
 	baseline := func() (skip bool) {
-		ctx0, cancel0 := context.WithTimeout(context.Background(), 400*time.Millisecond)
+		limit := 400 * time.Millisecond
+		if cold {
+			limit = 20 * time.Second // never judge against a truncated baseline on a loaded machine
+		}
+		ctx0, cancel0 := context.WithTimeout(context.Background(), limit)
 		defer cancel0()
 		t0 := time.Now()
 		b, to := outputs(alone(dec(j.Input), []any{dec(varText)}, ctx0))
 		base = b
-		return !cold && (to || time.Since(t0) > 60*time.Millisecond)
+		return to || (!cold && time.Since(t0) > 60*time.Millisecond)
 	}
 	if !cold {
 		if baseline() {
@@ -164,8 +168,11 @@ func runJob(j c56.Job, mode string, g, r int) result {
 	}
 	var all []obs
 	var wg sync.WaitGroup
-	ctx, cancel := context.WithTimeout(context.Background(), 15*time.Second)
+	// cancellation is only a brake for slow programs on a loaded machine; "deadlock" is judged by PROGRESS:
+	// no run of any goroutine completing for 30 s
+	ctx, cancel := context.WithCancel(context.Background())
 	defer cancel()
+	var progress atomic.Int64
 	start := make(chan struct{})
 	for w := 0; w < g; w++ {
 		wg.Add(1)
@@ -184,6 +191,7 @@ func runJob(j c56.Job, mode string, g, r int) result {
 				if to {
 					return
 				}
+				progress.Add(1)
 				mu.Lock()
 				if len(all) < 4096 {
 					all = append(all, obs{w, k, got})
@@ -196,15 +204,40 @@ func runJob(j c56.Job, mode string, g, r int) result {
 	done := make(chan struct{})
 	go func() { wg.Wait(); close(done) }()
 	res := result{"ok", ""}
-	select {
-	case <-done:
-	case <-time.After(20 * time.Second):
-		res = result{"timeout", "workers did not finish within 20 s (deadlock or livelock)"}
+	t0w, last, lastAt := time.Now(), int64(-1), time.Now()
+wait:
+	for {
+		select {
+		case <-done:
+			break wait
+		case <-time.After(500 * time.Millisecond):
+		}
+		if p := progress.Load(); p != last {
+			last, lastAt = p, time.Now()
+		}
+		if time.Since(lastAt) > 30*time.Second {
+			res = result{"timeout", "no run completed for 30 s (deadlock or livelock)"}
+			break wait
+		}
+		if time.Since(t0w) > 90*time.Second { // progressing but slow (loaded machine): give up without a verdict
+			cancel()
+			select {
+			case <-done:
+			case <-time.After(30 * time.Second):
+				res = result{"timeout", "workers did not stop within 30 s after cancellation"}
+			}
+			if res.status == "ok" {
+				res = result{"skip", "slow"}
+			}
+			break wait
+		}
 	}
 	stop.Store(true)
 	rd.Wait()
 	if cold {
-		baseline()
+		if baseline() && res.status == "ok" {
+			return result{"skip", "slow-baseline"}
+		}
 	}
 	for _, o := range all {
 		if i := c56.FirstDiff(base, o.got); i >= 0 {
@@ -218,9 +251,6 @@ func runJob(j c56.Job, mode string, g, r int) result {
 			firstDiff = fmt.Sprintf("goroutine %d repetition %d output #%d: alone %s, concurrently %s", o.w, o.k, i, clip(x), clip(y))
 			break
 		}
-	}
-	if res.status == "ok" && ctx.Err() != nil {
-		res = result{"timeout", "workers exceeded 15 s"}
 	}
 	if res.status == "ok" && firstDiff != "" {
 		res = result{"diff", firstDiff}
